@@ -218,12 +218,16 @@ class SyncService(object):
             data = f['data']
             off = 0
             k = 0
-            while off < len(data):
+            explicit = list(getattr(self, 'explicit_sizes', None) or [])
+            while off < len(data) or explicit:
                 if plan.where == 'DATA' and k == plan.k:
                     self.reply(st, wire.sync_record('FAIL', len(plan.reason), plan.reason))
                     return
-                n = self.data_sizes(len(data) - off) if self.data_sizes else min(65536, len(data) - off)
-                n = max(1, min(n, 65536, len(data) - off))
+                if explicit:
+                    n = min(explicit.pop(0), 65536, len(data) - off)      # explicit sizes may be 0 (an empty DATA record)
+                else:
+                    n = self.data_sizes(len(data) - off) if self.data_sizes else min(65536, len(data) - off)
+                    n = max(1, min(n, 65536, len(data) - off))
                 self.reply(st, wire.sync_record('DATA', n, data[off:off + n]))
                 off += n
                 k += 1
